@@ -4,7 +4,7 @@ implementation on the interfaces the property depends on and the direct oracles,
 violations (counterexample or no-failing-input-found)."""
 import hashlib, itertools, json, os, pickle, random, re, shutil, subprocess, sys, time
 sys.path.insert(0, os.path.dirname(os.path.abspath(__file__)))
-import vlib, gram, genrun, backend, i6check, cliprops
+import vlib, gram, genrun, backend, i6check, cliprops, frontprops
 
 TRUSTED_BASE = [
     'Coq 8.16.1 kernel (coqc; coqchk in the thorough tier); vm_compute in Examples; no native_compute',
@@ -841,5 +841,18 @@ reg('C13', cliprops.run_C13, ['Prop_C13.v'], 'texts: every prefix (quick: a rand
     level_text='The termination argument is carried by the shape of the model: the lexer is a one-byte transducer folded over the input (total by construction, C13_lexer_total restates its composition law), the LR(0) worklist is bounded by the 2000-state cap, closure and productivity sweeps by |rules|+1 (C09_closure_complete, C12_productive). What ties this to the Go code (state functions that could stop consuming input, a parser loop that could wait on a closed channel) is the deadline run: every prefix and random edits of well-formed files through generate go / generate typescript / debug. Partial: the parser loops of Parser.go are not yet modelled in Coq; OS scheduling and the Go runtime are outside the model.',
     level_note=MODEL_NOTE)
 
+reg('C10', frontprops.run_C10, ['Prop_C10.v'], 'abstract specifications (curated families + seeded random grammars with every printable character literal, names that start with directive words, actions with nested braces / comments / strings, explicit token numbers, re-declarations, tokens declared only through precedence lines or only used in rules, optional %start, missing epilogue, prologue and union containing grammar-like text) x 6 (quick) / 24 (thorough) renderings each: single spaces, one token per line, no optional space at all, random blanks/tabs/newlines with // and /* */ comments (incl. runs of stars) between every pair of tokens, with and without ; terminators, alternatives grouped with |. Compared: what the implementation read back (rules in order with symbols, %prec and action text; start symbol; tags; fixed codes; precedence levels; prologue/union/epilogue bytes) with the specification that was rendered, and all renderings of one specification with each other; the Coq visitor model runs on the implementation\'s AST. non-trivial = renderings that contain comments',
+    technique='Coq theorem (lexing any rendering of a token sequence gives back the tokens: transducer lexer, separators incl. comments) + specification/rendering round trip through the real front end + Coq visitor model on the implementation AST',
+    level_text='Proved in Coq at the token level for the transducer lexer model: lex (render d) = tokens of d for every layout of blanks, // and /* */ comments incl. star runs (C10_lex_roundtrip; subset of the token kinds: identifiers, punctuation, character literals, %%, brace-balanced actions). The grammar level (parser + visitor) is modelled executably in Front.v and compared with the implementation on its own AST on every run; the end-to-end statement front (render L s) = denote s is checked on every run by rendering random specifications under random layouts and comparing what the real front end read back with the specification, and renderings with each other. Partial: the parser layer and the remaining token kinds are not yet proved.',
+    level_note=MODEL_NOTE + ' Dialect restrictions are explicit in the generator (DESIGN 5.C10): brace-balanced action/union bodies, a literal never directly after a bare identifier in a %token line (it would be its alias), %union followed by blanks then { then white space.')
+reg('C11', frontprops.run_C11, ['Prop_C11.v'], 'declaration mixes: seeded random grammars with 3-9 terminals declared in every way (tagged/untagged %token lines, several per line, explicit numbers: small, > 255, negative, inside the range the automatic numbering walks through, re-declared in a second %token line, character literals declared / only in precedence lines / only in rules, aliases), distinct explicit numbers. Checked on the implementation: the verified checker Front.valid_codes (extracted) on the AST declarations and the final identifier table; emitted `const NAME = n` lines and the translate switch of both generated files (Go, TypeScript) against the grammar\'s terminals. non-trivial = mixes with both automatically numbered and explicitly numbered named tokens',
+    technique='Coq-verified checker (valid_codes_sound) run on the implementation\'s identifier table + emitted constants/translate parsed from both generated targets + Coq visitor model on the implementation AST',
+    level_text='Proved in Coq: any code table accepted by valid_codes keeps every fixed code, gives every other token a code outside the fixed codes and different from -1, and is duplicate-free when the fixed codes are (C11_checker_sound). The extracted checker runs on the implementation\'s own declarations and final table for every declaration mix; the emitted constants and the translate switch of the generated Go and TypeScript files are parsed and compared with the grammar\'s terminals (every code to its own symbol, -1 to the end marker, nothing else listed). The generator-side theorem (the model\'s visit always passes valid_codes) is not yet proved; the Coq visitor model is compared with the implementation on every AST.',
+    level_note=MODEL_NOTE)
+reg('C12', frontprops.run_C12, ['Prop_C12.v'], 'seeded random usable grammars with one planted defect each: undefined symbol anywhere in a right-hand side; nonterminal without terminal derivation through left recursion, right recursion, mutual recursion, two recursive rules, unreachable, at the start symbol; %type name without rule; %start without rule; and the accept side: productive only through an empty rule, productive through a chain of unit rules listed in the unfavourable order, no defect. Compared: refusal and its reason (from the panic text) with the planted defect, and with the Coq front-end model run on the implementation\'s AST. non-trivial = grammars that must be refused',
+    technique='Coq theorem (the sweep-until-stable loop computes exactly the productive symbols) + planted-defect grammars through the real front end + Coq front-end model (visit, build_grammar) on the implementation AST',
+    level_text='Proved in Coq: the fixpoint loop of CalculateCanTerminate/CalculateEpsilonClosure as modelled computes exactly the inductive predicate "derives a terminal string", with fuel |rules|+1 shown sufficient (C12_productive). The model of the visitor and of BuildLALR1\'s checks (Front.v) decides refusal and its reason; it is compared with the implementation on every run on grammars with planted defects of every kind and position, and the implementation\'s verdict is compared with the planted defect itself.',
+    level_note=MODEL_NOTE + ' The 2000-state limit is outside the checked range.')
+
 NOT_CLAIMED = {pid: 'check under construction: the model and harness for this property are not registered yet (see DESIGN.md section 5.%s); no claim is made' % pid
-               for pid in ['C10', 'C11', 'C12', 'C16', 'C17', 'C18']}
+               for pid in ['C16', 'C17', 'C18']}
